@@ -1136,3 +1136,89 @@ Proof.
   match type of H2 with run _ ?s = _ => destruct (sent_frozen acts2 s st eq_refl H2) as (_ & ->) end.
   prj. apply last_last.
 Qed.
+
+(** * No lost wake-up at a receiver
+
+    [rsidx] records the index of the value that was current when the receiver last marked a version
+    seen.  Whenever the cell holds a value with another index, the versions differ as well, so a
+    poll of [changed()] answers [Ok] (rule T1) -- for all action lists, faults included. *)
+Definition SeenOK (x : rcv) (c : cell) : Prop :=
+  rseen x <= cver c /\ (rseen x = cver c -> rsidx x = idx c).
+
+Definition Seen' (n : nat) (rc : nat -> rcv) (ce : nat -> cell) : Prop :=
+  forall r, (r < n)%nat -> SeenOK (rc r) (ce (rcell (rc r))).
+Definition Seen (st : state) : Prop := Seen' (nrcv st) (rcvs st) (cells st).
+
+Lemma SeenOK_same x c c' : cver c' = cver c -> cval c' = cval c -> SeenOK x c -> SeenOK x c'.
+Proof. unfold SeenOK, idx. intros -> ->. auto. Qed.
+Lemma SeenOK_bump x c c' : cver c' = cver c + 1 -> SeenOK x c -> SeenOK x c'.
+Proof. unfold SeenOK. intros -> (A & B). split; [lia|]. intros. lia. Qed.
+
+Lemma Seen_set_cell n rc ce d x' :
+  Seen' n rc ce ->
+  (cver x' = cver (ce d) /\ cval x' = cval (ce d)) \/ cver x' = cver (ce d) + 1 ->
+  Seen' n rc (upd ce d x').
+Proof.
+  intros H Hx r Hr. specialize (H r Hr). upd_cases; auto. rewrite Hu in H.
+  destruct Hx as [(A & B)|A]; eauto using SeenOK_same, SeenOK_bump.
+Qed.
+
+Lemma Seen_add_cell n rc ce k x' :
+  Seen' n rc ce -> (forall r, (r < n)%nat -> rcell (rc r) <> k) -> Seen' n rc (upd ce k x').
+Proof. intros H Hk r Hr. rewrite upd_other by auto. auto. Qed.
+
+Lemma Seen_set_rcv n rc ce r x' :
+  Seen' n rc ce -> SeenOK x' (ce (rcell x')) -> Seen' n (upd rc r x') ce.
+Proof. intros H Hx q Hq. upd_cases; auto. Qed.
+
+Lemma Seen_add_rcv n rc ce x' :
+  Seen' n rc ce -> SeenOK x' (ce (rcell x')) -> Seen' (S n) (upd rc n x') ce.
+Proof. intros H Hx q Hq. upd_cases; auto. apply H. lia. Qed.
+
+Lemma Seen_step st a st' : Safe st -> Seen st -> step st a = Some st' -> Seen st'.
+Proof.
+  unfold Seen. intros Hs Hn H.
+  assert (Hrc : forall r, (r < nrcv st)%nat -> rcell (rcvs st r) <> ncell st).
+  { intros r Hr. destruct (sf_rcv _ Hs _ Hr). lia. }
+  destruct a; cbn [step] in H; cases; auto; try use_live; try use_linked; unfold do_send; prj;
+    try (apply Seen_set_cell; auto; prj; auto; fail).
+  - (* Subscribe *) apply Seen_add_rcv; auto. split; prj; auto. lia.
+  - (* CloneRx *) apply Seen_add_rcv; auto. (match goal with Hr : (r < nrcv st)%nat |- _ => exact (Hn _ Hr) end).
+  - (* DropRx *) apply Seen_set_rcv; auto. (match goal with Hr : (r < nrcv st)%nat |- _ => exact (Hn _ Hr) end).
+  - (* Observe *) apply Seen_set_rcv; auto. split; prj; auto. lia.
+  - (* Borrow *) apply Seen_set_rcv; auto. (match goal with Hr : (r < nrcv st)%nat |- _ => exact (Hn _ Hr) end).
+  - (* Changed *) apply Seen_set_rcv; auto. split; prj; auto. lia.
+  - (* TransferRx *)
+    apply Seen_add_rcv; prj.
+    + apply Seen_add_cell; auto.
+    + rewrite upd_same. split; unfold idx; prj; auto. lia.
+  - (* TransferTx *)
+    apply Seen_set_cell; prj.
+    + apply Seen_add_cell; auto.
+    + left. rewrite upd_other; auto. destruct (sf_sender _ Hs _ E). lia.
+  - (* Fault *)
+    apply Seen_set_cell; auto. destruct (lrecv (cells st d)); prj; auto.
+Qed.
+
+Lemma Seen_init p : Seen (init p).
+Proof.
+  intros r Hr. cbn [init nrcv rcvs cells] in *. assert (r = 0)%nat by lia. subst. rewrite upd_same.
+  split; cbn; auto. lia.
+Qed.
+
+Lemma Seen_run acts : forall st st', Safe st -> Seen st -> run acts st = Some st' -> Seen st'.
+Proof.
+  induction acts as [|a acts IH]; cbn [run]; intros st st' Hs Hn H.
+  - now injection H as <-.
+  - destruct (step st a) eqn:E; [|discriminate]. apply (IH s); eauto using Safe_step, Seen_step.
+Qed.
+
+Theorem no_lost_wakeup acts p st r :
+  run acts (init p) = Some st -> (r < nrcv st)%nat ->
+  rsidx (rcvs st r) <> fst (cval (cells st (rcell (rcvs st r)))) ->
+  changed_res st r = ChOk.
+Proof.
+  intros H Hr Hne. pose proof (Seen_run _ _ _ (Safe_init p) (Seen_init p) H r Hr) as (A & B).
+  unfold changed_res. destruct (N.eqb_spec (rseen (rcvs st r)) (cver (cells st (rcell (rcvs st r))))); auto.
+  exfalso. apply Hne. apply B. auto.
+Qed.
